@@ -1756,6 +1756,19 @@ def _call(self, func, argv, guard, mem, dest_ty, caller):
             return (r, guard)
     fn = self.resolve(func, argv)
     if fn is None:
+        # the blanket `impl<T, U: From<T>> Into<U> for T`: <A as Into<B>>::into(x) is <B as From<A>>::from(x) - look for a crate
+        # `from` with exactly that signature
+        mi = re.match(r'^<(.+) as Into<(.+)>>::into$', func.strip())
+        if mi:
+            tb = lambda t: re.sub(r'<.*$', '', t).split('::')[-1].strip('&').strip()
+            a_, b_ = tb(mi.group(1)), tb(mi.group(2))
+            cs = [i for i in self.ix.find('from') if '<impl at ' in self.ix.offsets[i][0] and M.header_name(self.ix.offsets[i][0]).endswith('::from')]
+            cs = [i for i in cs if len(self.ix.get(i).params) == 1 and tb(self.ix.get(i).params[0][1]) == a_ and tb(self.ix.get(i).ret_ty) == b_]
+            if len(cs) > 1 and len({self.ix.offsets[i][0] for i in cs}) == 1:
+                cs = cs[:1]
+            if len(cs) == 1:
+                fn = self.ix.get(cs[0])
+    if fn is None:
         self.unsup(guard, 'call to unmodelled function %s (from %s)' % (func[:140], caller.fn.name if caller else '?'))
         return (Opaque('call ' + func[:40]), guard)
     return self.call_fn(fn, argv, guard, mem)
@@ -1872,6 +1885,17 @@ def _resolve(self, func, argv=None):
             g3 = [i for i in (g2 or good) if all(sg in self.ix.offsets[i][0] for sg in segs[-1:])]
             if len(g3) == 1:
                 return self.ix.get(g3[0])
+        # a binary operator trait implemented for several right-hand types by one macro (`impl BitOr for X` next to
+        # `impl BitOr<Y> for X`): the trait's generic argument - Self when there is none - is the second parameter's type
+        mt = re.match(r'^<(.+) as (?:[\w:]+::)?\w+(?:<(.+)>)?>::\w+$', func.strip())
+        if mt:
+            rhs = mt.group(2) if mt.group(2) else mt.group(1)
+            rb = re.sub(r'<.*$', '', rhs).split('::')[-1].strip('&').strip()
+            g4 = [i for i in (g2 or good) if len(self.ix.get(i).params) >= 2 and re.sub(r'<.*$', '', self.ix.get(i).params[1][1]).split('::')[-1].strip('&').strip() == rb]
+            if len(g4) > 1 and len({self.ix.offsets[i][0] for i in g4}) == 1:
+                g4 = g4[:1]
+            if len(g4) == 1:
+                return self.ix.get(g4[0])
         raise Unsupported('ambiguous method %s (%d candidates)' % (func[:100], len(good)))
     return None
 
